@@ -162,6 +162,16 @@ BddInclFails(e) ==
         LET x == e.res.v[k] IN
         IF k \in BddImplemented THEN x \notin {exp, "N"} ELSE x \in {"T", "F"} /\ x # exp}
 
+\* the CLI's `load -p` / `load -s`: one trimming per event
+Trim2Fails(e) ==
+  LET A == ToAut(e.A) IN
+  (IF Has(e.res, "unreach") THEN LET U == ToAut(e.res.unreach) IN
+       Why(LangEq(U, A), "unreach-language")
+       \* the BDD encodings remove BOTTOM-UP unreachable states; C08 demands language preservation only (langonly)
+       \cup (IF Has(e, "langonly") THEN {} ELSE Why(States(U) \subseteq TopReach(U), "unreach-leaves-unreachable-state")) ELSE {})
+  \cup (IF Has(e.res, "useless") THEN LET S == ToAut(e.res.useless) IN
+       Why(LangEq(S, A), "useless-language") \cup Why(IsTrim(S), "useless-leaves-useless") ELSE {})
+
 Fails(e) ==
   IF e.outcome # "ok" THEN {"outcome:" \o e.outcome}
   ELSE CASE e.op = "incl"      -> InclFails(e)
@@ -169,6 +179,7 @@ Fails(e) ==
          [] e.op = "uniondisj" -> UnionDisjFails(e)
          [] e.op = "isect"     -> IsectFails(e)
          [] e.op = "trim"      -> TrimFails(e)
+         [] e.op = "trim2"     -> Trim2Fails(e)
          [] e.op = "sim"       -> SimFails(e)
          [] e.op = "reduce"    -> ReduceFails(e)
          [] e.op = "compl"     -> ComplFails(e)
